@@ -321,7 +321,12 @@ class ManifestContext:
             self.locationURL = locationURL
         event_generators = EventFactory.create_event_generators(opts)
         for evgen in event_generators:
-            ev_stream = evgen.create_manifest_context(context=vars(self))
+            ev_context = dict(vars(self))
+            if db_period:
+                # the events of a Period of a multi-period stream are timed
+                # from the start of that Period
+                ev_context['periodDuration'] = period.duration
+            ev_stream = evgen.create_manifest_context(context=ev_context)
             if evgen.inband:
                 # TODO: allow AdaptationSet for inband events to be
                 # configurable
